@@ -77,6 +77,34 @@ CLAIMED = {
                      'digest of that height, equal answers for equal heights). Data races cannot be expressed in TLA+: the thorough tier runs the same schedules and a ValidateBasic/GetSignBytes sweep under -race.',
                 ref='DESIGN.md section 6 C20',
                 note='The data-race clause is decided by the Go race detector (auxiliary, thorough tier only), not by the specification. Consensus/mempool ABCI calls are serialised like the CometBFT local client.'),
+    'C14': dict(tech='TLA+ model checking (TLC) of SignBytes.tla over all ordered message pairs + validation (SignBytesTrace.tla) of the REAL sign bytes of every message of the alphabet',
+                text='SignBytes.tla gives, per sign mode, the structure of what is signed (DIRECT/DIRECT_AUX: type URL + fields; LEGACY_AMINO_JSON: type-less JSON of the non-empty fields for aol/did, '
+                     'unavailable for pnft) over the message alphabet of MC.tla (14 types, every field from a small set including the empty value); TLC checks injectivity over all ordered pairs '
+                     'and that amino collisions occur only in the recorded type-less classes. The harness computes the real sign bytes of every message in the three modes (3x in-process, plus a '
+                     'GOMAXPROCS=1 process); SignBytesTrace.tla checks that real collisions are exactly the predicted ones: any other collision, or a nondeterministic result, is a violation.',
+                ref='DESIGN.md section 6 C14',
+                note='Finite field alphabet (including empty optional fields), not all strings. One known finding (type-less amino JSON of aol/did messages) is listed in known_findings.json and re-observed on every run.'),
+    'C16': dict(tech='TLA+ case enumeration with oracle (TLC on Shapes.tla: baseline, all single and pairwise field-shape deviations) + validation (ShapesTrace.tla) of the real ValidateBasic / DeliverTx outcome of every case',
+                text='Shapes.tla transcribes the PUBLISHED limits as a classification of field shapes (lengths in bytes around every boundary, multi-byte/control/separator characters, malformed addresses, '
+                     'DID/document/method-id/key/relationship/context/controller/service shapes) and TLC enumerates ~9,600 cases for the 14 message types. Every case is concretised, encoded and decoded, '
+                     'validated by the real ValidateBasic and pushed through DeliverTx (every 7th also inside authz.MsgExec); ShapesTrace.tla recomputes the oracle verdict from the logged labels and '
+                     'demands accept/reject agreement, that rejected messages never get past the stateless stage nor change state, and that nothing outside the limits is found in the stores.',
+                ref='DESIGN.md section 6 C16',
+                note='Exhaustive over a finite shape lattice, not all byte strings. Readings taken where the published text is silent are listed in the header of Shapes.tla; shapes it does not settle are "any" (totality only).'),
+    'C17': dict(tech='TLA+ case enumeration (TLC on Shapes.tla, message + query + key-store-file shapes) + validation (ShapesTrace.tla, Trace.tla) that no real entry point panics; chain-level behaviours monitored for panics/halts',
+                text='The Shapes.tla lattice is extended with absurd shapes for the 12 query types (over-long/NUL/invalid-UTF-8 fields, extreme offsets, hostile pagination, nil requests, ABCI and direct paths) '
+                     'and key-store files (dklen/c/iv/salt/mac/ciphertext/version/kdf/prf/json/password shapes); every case runs under recover through ValidateBasic, GetSigners, DeliverTx, the query '
+                     'handlers and KeyStore.Load; additionally TLC-simulated chain behaviours with zero/dust/huge deposits and vesting at the burn address are replayed and every ABCI call (notably EndBlock) '
+                     'is monitored. A recovered panic, ABCI code 111222 or a halted block is the violation.',
+                ref='DESIGN.md section 6 C17',
+                note='Finite shape lattice (single and pairwise deviations from a baseline); not every byte string that decodes.'),
+    'C18': dict(tech='TLA+ model checking (TLC) of CompKey.tla over a scaled domain (all tuples, all ordered pairs, all byte strings) + validation (CompKeyTrace.tla) of the real codec against the unscaled specification functions',
+                text='CompKey.tla defines Encode/PartialEncode/Decode/string form for arbitrary bytes and lengths. TLC checks round trip, injectivity, prefix-exactness, rejection of over-long components, '
+                     'decoder totality/no-trailing-garbage and the string form exhaustively with MaxLen=2 over a byte alphabet that contains the length values. The real compkey functions are then run on '
+                     'every tuple and byte string of that domain, on real-size boundaries (lengths 0..1000 around 255/256), on typed x/aol keys with legal and illegal components, and on validator-admitted '
+                     'topic names through the genesis string form; CompKeyTrace.tla (MaxLen=255) demands equality with the specification functions on every observation.',
+                ref='DESIGN.md section 6 C18',
+                note='The exhaustive part is scaled (MaxLen 2 for 255); the real bound is covered by boundary cases.'),
 }
 
 PENDING_REASON = 'check not built yet in this round of work (planned in DESIGN.md section 11); no claim is made until its machinery exists'
